@@ -168,6 +168,10 @@ def p_len(ex, args, kw, st):
                 n = n * num_term(d)
             return n
         return count_term(ex, SAgg('COUNT', v.shape, v.pred, lambda p: 1), st)
+    if isinstance(v, SObj):
+        c = ex.registry.lookup_method(v.cls, '__len__')
+        if c is not None:
+            return [(s2, r) for (s2, r) in ex.apply_contract(c, [v], {}, st)]
     raise Unsupported(f'len of {type(v).__name__}')
 
 
@@ -368,6 +372,18 @@ def p_hasattr(ex, args, kw, st):
             ex._find_method_def(cls, name, want_property=True) is not None:
         return True
     return False
+
+
+def p_getattr(ex, args, kw, st):
+    """getattr(record, 'name') with a literal name: the field read `record.name`."""
+    v, name = args[:2]
+    if not isinstance(v, SObj) or not isinstance(name, str):
+        raise Unsupported('getattr of this value')
+    if name in v.fields:
+        return v.fields[name]
+    if len(args) == 3:
+        return args[2]
+    raise Unsupported(f'getattr: record {v.cls} has no field {name!r}')
 
 
 def np_isscalar(ex, args, kw, st):
@@ -1335,7 +1351,7 @@ TABLE = {
     'floor': p_floor, 'ceil': p_ceil,
     'int': p_int, 'float': p_float, 'bool': p_bool, 'abs': p_abs, 'np.abs': p_abs,
     'np.fabs': p_abs, 'fabs': p_abs, 'math.fabs': p_abs,
-    'min': p_min, 'max': p_max, 'len': p_len, 'isinstance': p_isinstance, 'slice': p_slice,
+    'min': p_min, 'max': p_max, 'len': p_len, 'getattr': p_getattr, 'isinstance': p_isinstance, 'slice': p_slice,
     'tuple': p_tuple, 'list': p_list, 'set': p_set, 'sorted': p_sorted, 'np.insert': np_insert, 'np.isscalar': np_isscalar, 'hasattr': p_hasattr,
     'np.maximum': np_maxmin2('maximum'), 'np.minimum': np_maxmin2('minimum'), 'np.max': np_extremum('max'), 'np.min': np_extremum('min'),
     'np.amax': np_extremum('max'), 'np.amin': np_extremum('min'), 'np.searchsorted': np_searchsorted, 'zip': p_zip, 'range': p_range, 'enumerate': p_enumerate,
